@@ -236,16 +236,19 @@ class Exec:
         return self.timed_out or self.rc != 0 or self.count is None
 
 
-def run_batch(binary, ex, tag, contents, pool, c, gmp=4, lines_opt=None, timeout=120, extra_env=None):
+def run_batch(binary, ex, tag, contents, pool, c, gmp=4, lines_opt=None, timeout=120, extra_env=None,
+              keep_root=False, folders=None, batch_name=None):
     """contents: list of content keys (into pool: key -> line text).  Every line gets its own
-    resultfolder <tag>/l<index>.  Returns Exec."""
+    resultfolder <tag>/l<index> (or <tag>/l<folders[index]>: lines sharing a folder on purpose).
+    keep_root: do not empty <tag> first (run into a USED result folder).  Returns Exec."""
     e = Exec(); e.contents = list(contents); e.c = c; e.gmp = gmp; e.lines_opt = lines_opt; e.tag = tag
     e.root = os.path.join(ex, tag)
-    shutil.rmtree(e.root, ignore_errors=True)
-    bf = os.path.join(ex, tag + "_batch.txt")
+    if not keep_root:
+        shutil.rmtree(e.root, ignore_errors=True)
+    bf = os.path.join(ex, (batch_name or tag) + "_batch.txt")
     with open(bf, "w") as f:
         for i, k in enumerate(contents):
-            f.write("%s resultfolder=%s/l%d\n" % (pool[k], tag, i))
+            f.write("%s resultfolder=%s/l%d\n" % (pool[k], tag, folders[i] if folders else i))
     cmd = [binary, "-module", "batch", "-concurrent", str(c), "-batch", bf]
     if lines_opt:
         cmd += ["-lines", lines_opt]
